@@ -37,7 +37,7 @@ func TestVerifC02(t *testing.T) {
 			}
 			return 8
 		},
-		Floors: map[string]int64{"programs": 100, "programs_with_inversions": 30, "completion_inversions": 500, "requests": 5000},
+		Floors: map[string]int64{"programs": 100, "programs_with_duplicate_ids": 20, "programs_with_inversions": 30, "completion_inversions": 500, "requests": 5000},
 		Run:    c02Run,
 	})
 }
@@ -222,6 +222,38 @@ func c02Run(u *vfUnit) {
 		}
 		prog := c02Program(r, e, depth)
 		label := fmt.Sprintf("%v/alloc=%v/procs=%d/depth=%d/profile=%d", kind, alloc, procs, depth, profile)
+		// every third program re-uses request ids among in-flight requests (a peer is free to do so):
+		// read-only requests whose replies identify the request by content, not by id
+		dupIDs := pi%3 == 2
+		var expect []string
+		if dupIDs {
+			label += "/dup-ids"
+			files, _, _ := c02Paths(e)
+			hr, herr := rs.R.Phase(60*time.Second, vfPkt{Type: rfOpen, ID: 1, Path: files[0], Pflags: rfRead_})
+			if herr != nil || len(hr) != 1 || hr[0].Type != rfHandle {
+				u.Violation("dup-id-open:"+kind.String(), fmt.Sprintf("%s: %v %v", label, hr, herr), nil)
+				hooks.Uninstall()
+				rs.End(60 * time.Second)
+				continue
+			}
+			h := hr[0].Handle
+			pool := 1 + r.Intn(3)
+			sizes := []int{5000, 100, 10}
+			prog = prog[:0]
+			for i := 0; i < depth; i++ {
+				id := uint32(7 + r.Intn(pool))
+				if r.Intn(4) == 0 {
+					k := r.Intn(3)
+					prog = append(prog, vfPkt{Type: rfStat, ID: id, Path: files[k]})
+					expect = append(expect, fmt.Sprintf("size=%d", sizes[k]))
+				} else {
+					off := r.Intn(4900)
+					prog = append(prog, vfPkt{Type: rfRead, ID: id, Handle: h, Off: uint64(off), Len: 24})
+					expect = append(expect, fmt.Sprintf("data=%x", vfPattern(1, int64(off), 24)))
+				}
+			}
+			u.Count("programs_with_duplicate_ids", 1)
+		}
 		u.Eval(label)
 		u.Count("programs", 1)
 		u.Count("requests", int64(len(prog)))
@@ -231,8 +263,8 @@ func c02Run(u *vfUnit) {
 		for _, p := range prog {
 			stream = append(stream, p.Frame()...)
 		}
+		base := rs.R.Count() // the VERSION reply (and the reply to the preparatory OPEN)
 		sent := vfGo(func() { rs.R.Send(stream) })
-		base := 1 // the VERSION reply
 		w, dump := rs.R.WaitCount(base+len(prog), 120*time.Second)
 		witness := func() map[string]any {
 			var l []string
@@ -264,6 +296,22 @@ func c02Run(u *vfUnit) {
 			if perr != nil {
 				u.Violation("response-undecodable:"+kind.String()+":"+rfTypeName(req.Type), fmt.Sprintf("%s: response %d (to %s) does not decode: %v (% x)", label, i, req, perr, vfTrimB(body, 48)), witness())
 				break
+			}
+			if dupIDs && perr == nil {
+				got := ""
+				switch p.Type {
+				case rfAttrs:
+					got = fmt.Sprintf("size=%d", p.Attrs.Size)
+				case rfData:
+					got = fmt.Sprintf("data=%x", p.Data)
+				default:
+					got = p.String()
+				}
+				if p.ID != req.ID || got != expect[i] {
+					u.Violation("order-with-duplicate-ids:"+kind.String(), fmt.Sprintf("%s: response %d (%s) is not the answer to request %d (%s): requests sharing an id were answered out of arrival order", label, i, p, i, req), witness())
+					break
+				}
+				continue
 			}
 			if p.ID != req.ID {
 				// find where the expected id went
